@@ -1049,6 +1049,19 @@ def _check_global(rep, out, beh):
                       f"{beh['steps']}", beh)
 
 
+def _check_mixing(rep, beh, ri, r):
+    """(I1) on the real files of the tree's modules after a sequential run."""
+    found = False
+    for m, files in sorted(r["dir"].items()):
+        for mk, slot in files.items():
+            if (mk == "") == slot["body"]["hooked"]:
+                found = True
+                what = "hooked bytecode in unmarked file" if mk == "" else "unhooked bytecode in marked file"
+                rep.violation({"mixed": what, "hook": r["hook"]},
+                              f"run {ri + 1} of {beh['steps']}: {what}: {PKG[m]}/mod .pyc marker {mk!r} holds {slot}", beh)
+    return found
+
+
 def _check_run(rep, ctx, beh, ri, r, exp_state, origin):
     """one real run against (a) the empty-cache reference = C16 itself, (b) I1 on the real files,
     (c) the faithful model's prediction (drift only)."""
@@ -1079,12 +1092,8 @@ def _check_run(rep, ctx, beh, ri, r, exp_state, origin):
             if e["sv"] != 0 and (behaviour_key(b) != e["body"] or b["ver"] != e["sv"]):
                 rep.spec_drift(f"{origin}: run {ri + 1} of {beh['steps']}: {m} executed {behaviour_key(b)} v{b['ver']}, "
                                f"faithful model says {e}")
+    _check_mixing(rep, beh, ri, r)
     for m, files in sorted(r["dir"].items()):
-        for mk, slot in files.items():
-            if (mk == "") == slot["body"]["hooked"]:
-                what = "hooked bytecode in unmarked file" if mk == "" else "unhooked bytecode in marked file"
-                rep.violation({"mixed": what, "hook": r["hook"]},
-                              f"run {ri + 1} of {beh['steps']}: {what}: {PKG[m]}/mod .pyc marker {mk!r} holds {slot}", beh)
         if exp_state is not None:
             exp = _slots_expected(ctx, exp_state, m)
             if exp != files:
@@ -1399,7 +1408,8 @@ def run(rep, tier, seed):
         # the first hooked run: compiles beartype into the scratch prefix (and records beartype's lazy imports)
         warm = ctx.exec_behaviour({"kind": "seq", "steps": [{"op": "run", "hook": {"a": "default", "b": "off"}, "order": ["a", "b"]}]})
         ctx.traces.append(({"kind": "seq", "steps": [{"op": "run", "hook": {"a": "default", "b": "off"}, "order": ["a", "b"]}]}, warm[1]))
-        ok = _references(rep, ctx, d, pool)
+        ok = not (_scan_events(rep, warm[1], ctx.traces[0][0]) or _check_mixing(rep, ctx.traces[0][0], 0, warm[0][0]))
+        ok = ok and _references(rep, ctx, d, pool)
         r1.result()
         if ok:
             with ThreadPoolExecutor(5) as tpool:
@@ -1419,27 +1429,52 @@ def run(rep, tier, seed):
 
 
 def replay(rep, path):
-    from concurrent.futures import ThreadPoolExecutor
+    """Re-run one recorded case (a run sequence or a two-thread schedule) on fresh scratch trees and
+    say whether the violation shows again.  (Like every replay of this kit it rewrites evidence/C16.json.)"""
     from verifkit.util import scratch
-    case = json.load(open(path))["case"]
+    doc = json.load(open(path))
+    case = doc["case"]
     rep.level = "exploration"
-    with scratch("c16r-") as d, ThreadPoolExecutor(8) as pool:
+    rep.cov["rule"] = "behaviour of each import equals the same import on an empty cache; no mixed bytecode files"
+    rep.sample(case)
+    reproduced = []
+    with scratch("c16r-") as d:
         ctx = Ctx(rep, d, 0)
         runs, log = ctx.exec_behaviour(case)
-        for st, r in zip([s for s in case["steps"] if s["op"] == "run"], runs):
-            print("run", json.dumps(st, sort_keys=True))
-            for m, b in sorted(r["out"]["behav"].items()):
-                c, v = r["hook"][m], r["vers"][m]
-                (ref_runs, _) = ctx.exec_behaviour({"steps": [{"op": "edit", "m": m}] * (v - 1) +
-                                                    [{"op": "run", "hook": {m: c}, "order": [m]}]})
-                ref = ref_runs[-1]["out"]["behav"][m]
-                print(f"  {m} under {c} v{v}: behaves {b}")
-                print(f"  {' ' * len(m)} same run on an empty cache: {ref}   {'SAME' if ref == b else 'DIFFERENT'}")
-                rep.count()
-                rep.nontrivial(json.dumps([st, m]))
-            print("  files:", json.dumps(r["dir"], sort_keys=True))
+        for ri, (st, r) in enumerate(zip([s for s in case["steps"] if s["op"] == "run"], runs)):
+            print("run", ri + 1, json.dumps(st, sort_keys=True))
             if r["out"].get("sched_problem"):
                 print("  scheduler:", r["out"]["sched_problem"])
+            for m, b in sorted(r["out"]["behav"].items()):
+                c, v = r["hook"][m], r["vers"][m]
+                ref_runs, _ = ctx.exec_behaviour({"steps": [{"op": "edit", "m": m}] * (v - 1) +
+                                                  [{"op": "run", "hook": {m: c}, "order": [m]}]})
+                ref = ref_runs[-1]["out"]["behav"][m]
+                print(f"  {m} under {c}, source v{v}: {b}")
+                print(f"  {' ' * len(m)} same import on an empty cache: {ref}   {'same' if ref == b else 'DIFFERENT'}")
+                if ref != b:
+                    reproduced.append(f"run {ri + 1}: {m} under {c} behaves differently from an empty cache")
+                rep.count()
+                rep.nontrivial(json.dumps([ri, m]))
+            for m, files in sorted(r["dir"].items()):
+                for mk, slot in sorted(files.items()):
+                    mixed = (mk == "") == slot["body"]["hooked"]
+                    print(f"  file {PKG[m]}/mod marker {mk!r}: {slot}{'   MIXED' if mixed else ''}")
+                    if mixed:
+                        reproduced.append(f"run {ri + 1}: {PKG[m]}/mod marker {mk!r} holds {slot['body']}")
+        for e in log:
+            if e["ev"] == "Write" and e.get("name") not in (None, "pa", "pb", "pa.mod", "pb.mod") and e["marker"] != "" \
+                    and not e["body"]["hooked"]:
+                print("  nested import:", e)
+                if isinstance(doc.get("key"), dict) and "nested_import" in doc["key"]:
+                    reproduced.append(f"{e['name']} cached in a file marked {e['marker']!r}")
+    rep.nontrivial("replay")
+    rep.nontrivial("case")
+    if reproduced:
+        print("REPRODUCED:", "; ".join(reproduced))
+        rep.violation(doc.get("key"), "replayed: " + "; ".join(reproduced), case)
+    else:
+        print("NOT REPRODUCED")
 
 
 if __name__ == "__main__":
